@@ -251,7 +251,16 @@ func c04SQL(l *c04Layout, cs *c04Case) string {
 		}
 		s := verb + iref + " (" + cq + "gid, " + cq + "gname) VALUES " + vals
 		if cs.has("ondup") && cs.Kind != "replace" {
-			s += " ON DUPLICATE KEY UPDATE gname = 'z'"
+			// the assigned column carries the same qualification as the statement (db.tbl.col for
+			// db-qualified statements, tbl.col for table-qualified ones)
+			oq := cq
+			if cs.Qual == "db" || cs.Qual == "dbalias" {
+				oq = q
+				if cs.Qual == "dbalias" {
+					_, oq = c04Ref(l, cs.Name, "db", c04T1, "")
+				}
+			}
+			s += " ON DUPLICATE KEY UPDATE " + oq + "gname = 'z'"
 		}
 		return s
 	case "ins-set":
